@@ -18,6 +18,9 @@ a read past the end of `Y` is `indexOOB`.
 Every function with a case analysis also returns a branch id (a small `Nat`):
 
 * `baryLine`           0 degenerate/a nearer, 1 degenerate/b nearer, 2 regular
+* `baryPlane`          0/3 regular, 1/2/4/5 degenerate fallback to an edge; the degeneracy test
+                         is the relative one of repair dbe9d34
+                         (`baryPlane_asIs_before_fix` keeps the old absolute test)
 * `closestPointLine`   0,1 as above, 2 regular→a, 3 regular→b, 4 regular→interior
 * `closestPointTriangle` 0 A, 1 B, 2 AB, 3 C, 4 AC, 5 BC, 6 face,
                          7/8/9 degenerate (sliver / collinear) fallback won by edge AB/AC/BC;
@@ -76,10 +79,56 @@ def baryLine (a b : V3 α) : Except Err (α × α × Nat) :=
     let v ← cdiv (-(V3.dot a ab)) denominator
     .ok (1 - v, v, 2)
 
-/-- `get_barycentric_coordinates_plane(a, b, c)` → `(u, v, w, branch)`;
+/-- `get_barycentric_coordinates_plane(a, b, c)` → `(u, v, w, branch)` (after repair dbe9d34:
+the degeneracy test is relative, `abs(denominator) <= EPSILON * max_edge_len_sq²`, the same
+criterion as in `closest_point_triangle`; `baryPlane_asIs_before_fix` keeps the old absolute test);
 branch: 0 regular (v0,v1), 1 degenerate→line ab, 2 degenerate→line ac,
 3 regular (v1,v2), 4 degenerate→line ac, 5 degenerate→line bc -/
 def baryPlane (a b c : V3 α) : Except Err (α × α × α × Nat) :=
+  let v0 := b - a
+  let v1 := c - a
+  let v2 := c - b
+  let d00 := V3.dot v0 v0
+  let d11 := V3.dot v1 v1
+  let d22 := V3.dot v2 v2
+  let maxEdgeLenSq := max d00 (max d11 d22)
+  let degenerateLimit := EPS * maxEdgeLenSq * maxEdgeLenSq
+  if d00 ≤ d22 then
+    let d01 := V3.dot v0 v1
+    let denominator := d00 * d11 - d01 * d01
+    if absS denominator ≤ degenerateLimit then
+      if d11 < d00 then do
+        let (u, v, _) ← baryLine a b
+        .ok (u, v, 0, 1)
+      else do
+        let (u, w, _) ← baryLine a c
+        .ok (u, 0, w, 2)
+    else do
+      let a0 := V3.dot a v0
+      let a1 := V3.dot a v1
+      let v ← cdiv (d01 * a1 - d11 * a0) denominator
+      let w ← cdiv (d01 * a0 - d00 * a1) denominator
+      .ok (1 - v - w, v, w, 0)
+  else
+    let d12 := V3.dot v1 v2
+    let denominator := d11 * d22 - d12 * d12
+    if absS denominator ≤ degenerateLimit then
+      if d22 < d11 then do
+        let (u, w, _) ← baryLine a c
+        .ok (u, 0, w, 4)
+      else do
+        let (v, w, _) ← baryLine b c
+        .ok (0, v, w, 5)
+    else do
+      let c1 := V3.dot c v1
+      let c2 := V3.dot c v2
+      let u ← cdiv (d22 * c1 - d12 * c2) denominator
+      let v ← cdiv (d11 * c2 - d12 * c1) denominator
+      .ok (u, v, 1 - u - v, 3)
+
+/-- `get_barycentric_coordinates_plane` as it was before repair dbe9d34: absolute test
+`abs(denominator) < EPSILON` (`denominator` = 4·area², dimension length⁴) -/
+def baryPlane_asIs_before_fix (a b c : V3 α) : Except Err (α × α × α × Nat) :=
   let v0 := b - a
   let v1 := c - a
   let v2 := c - b
